@@ -26,6 +26,7 @@ CONSTANTS Peers,        \* names of the peers that may connect
           Pipeline,     \* set of allowed numbers of requests sent when a piece is started ({2} in rdest)
           Rates,        \* set of rate values the stats timer may report
           FrameKinds,   \* frame kinds the (adversarial) remote peers may send in this configuration
+          BFMenu,       \* the piece sets a Bitfield frame may carry in this configuration
           HS0           \* TRUE: connections start with the handshake exchange already done (configurations
                         \*       that are not about C08/C11 skip it to reach deeper histories)
 
@@ -557,7 +558,7 @@ FrameStep(k) ==
   \/ FK("NotInterested") /\ HNotInterested(k)
   \/ FK("Cancel") /\ HCancel(k)
   \/ FK("Have") /\ \E p \in Pieces : HHave(k, p)
-  \/ FK("Bitfield") /\ \E S \in SUBSET Pieces : HBitfield(k, S)
+  \/ FK("Bitfield") /\ \E S \in BFMenu : HBitfield(k, S)
   \/ FK("Request") /\ \E p \in Pieces \cup {NPieces + 1}, ok \in BOOLEAN : HRequest(k, p, ok)
   \/ FK("Piece") /\ \E p \in Pieces, b \in 1..3, good \in BOOLEAN : b <= NBlocks[p] /\ HPiece(k, p, b, good)
   \* a frame other than handshake / keep-alive before the handshake ends the connection
